@@ -240,3 +240,11 @@ func (p *pool) len() int {
 	defer p.m.RUnlock()
 	return p.activeCount
 }
+
+// allPeers returns a copy of the list of all tracked peers, including removed ones that are not
+// cleaned up yet.
+func (p *pool) allPeers() []peer.ID {
+	p.m.RLock()
+	defer p.m.RUnlock()
+	return append([]peer.ID(nil), p.peersList...)
+}
